@@ -141,6 +141,98 @@ def gen_expr(rng, depth):
     return "(" + sp() + gen_expr(rng, depth - 1) + sp() + ")"
 
 
+OP_WORDS = ["and", "or", "not", "is", "in", "between", "isnull", "notnull", "like", "glob", "regexp", "match", "ilike",
+            "null", "true", "false", "case", "cast", "exists"]
+FUNCS = ["abs", "length", "coalesce", "max", "min", "ifnull", "substr", "upper", "round", "f1"]
+
+
+def gen_tight(rng, depth):
+    """an operand one tier above AND (usable as a BETWEEN bound, LIKE pattern, IS operand)"""
+    r = rng.random()
+    if depth <= 0 or r < 0.4:
+        return gen_atom(rng)
+    if r < 0.6:
+        return gen_tight(rng, depth - 1) + " " + rng.choice(["+", "-", "*", "||", "&", "<<", "%"]) + " " + gen_tight(rng, depth - 1)
+    if r < 0.7:
+        return rng.choice(["-", "~", "+"]) + gen_tight(rng, depth - 1)
+    if r < 0.85:
+        return "(" + gen_expr2(rng, depth - 1) + ")"
+    return "%s(%s)" % (rng.choice(FUNCS), ", ".join(gen_expr2(rng, depth - 1) for _ in range(rng.randint(1, 3))))
+
+
+def gen_expr2(rng, depth):
+    """expressions with the comparison-tier forms of the second model type"""
+    if depth <= 0:
+        return gen_tight(rng, 0)
+    r = rng.random()
+    x = gen_tight(rng, depth - 1)
+    neg = rng.choice(["", "", "NOT ", "not "])
+    if r < 0.12:
+        return x + " " + rng.choice(["IS NULL", "is not null", "IS NOT NULL", "ISNULL", "NOTNULL", "isnull"])
+    if r < 0.2:
+        return x + rng.choice([" IS ", " IS NOT ", " is not "]) + gen_tight(rng, depth - 1)
+    if r < 0.35:
+        return "%s %s%s %s" % (x, neg, rng.choice(["LIKE", "like", "GLOB", "REGEXP", "MATCH"]), gen_tight(rng, depth - 1))
+    if r < 0.52:
+        return "%s %s%s %s %s %s" % (x, neg, rng.choice(["BETWEEN", "between"]), gen_tight(rng, depth - 1), rng.choice(["AND", "and"]),
+                                    gen_tight(rng, depth - 1))
+    if r < 0.67:
+        return "%s %s%s (%s)" % (x, neg, rng.choice(["IN", "in"]), ", ".join(gen_expr2(rng, depth - 1) for _ in range(rng.randint(1, 3))))
+    if r < 0.72:
+        return "(%s)" % ", ".join(gen_expr2(rng, depth - 1) for _ in range(rng.randint(2, 3)))
+    if r < 0.9:
+        return gen_expr2(rng, depth - 1) + " " + rng.choice(["AND", "OR", "and", "=", "<", "<>"]) + " " + gen_expr2(rng, depth - 1)
+    if r < 0.95:
+        return "NOT " + gen_expr2(rng, depth - 1)
+    return x
+
+
+def xtree_to_coq(t):
+    """harness xtree -> sexpr2 term (None when a node is outside the second model type)"""
+    k = t["k"]
+    sub = lambda key: xtree_to_coq(t[key])
+    def items(lst):
+        cs = [xtree_to_coq(i) for i in lst]
+        if any(c is None for c in cs):
+            return None
+        acc = cs[0]
+        for c in cs[1:]:
+            acc = "(X2Bin %s %s %s)" % (cstr(","), acc, c)
+        return acc
+    b = lambda v: "true" if v else "false"
+    if k == "bin":
+        x, y = sub("x"), sub("y")
+        return None if None in (x, y) else "(X2Bin %s %s %s)" % (cstr(t["op"]), x, y)
+    if k == "un":
+        x = sub("x")
+        return None if x is None else "(X2Un %s %s)" % (cstr(t["op"]), x)
+    if k == "paren":
+        x = sub("x")
+        return None if x is None else "(X2Paren %s)" % x
+    if k == "isnull":
+        x = sub("x")
+        return None if x is None else "(X2IsNull %s %s)" % (x, b(t["neg"]))
+    if k == "like":
+        x, p = sub("x"), sub("p")
+        return None if None in (x, p) else "(X2Like %s %s %s %s)" % (cstr(t["op"]), x, p, b(t["neg"]))
+    if k == "between":
+        x, lo, hi = sub("x"), sub("lo"), sub("hi")
+        return None if None in (x, lo, hi) else "(X2Between %s %s %s %s)" % (x, lo, hi, b(t["neg"]))
+    if k == "in":
+        x, i = sub("x"), items(t["items"])
+        return None if None in (x, i) else "(X2In %s %s %s)" % (x, i, b(t["neg"]))
+    if k == "call":
+        if bytes.fromhex(t["f"]).decode("utf8", "replace").lower() in OP_WORDS:
+            return None      # "x = NOT (y)": the real parser reads a call of a function named NOT; outside the token pass
+        a = items(t["args"])
+        return None if a is None else "(X2Call %s %s)" % (vf.vN(bytes.fromhex(t["f"])), a)
+    if k == "tuple":
+        i = items(t["items"])
+        return None if i is None else "(X2Paren %s)" % i
+    a = tree_to_coq(t)
+    return None if a is None else a.replace("(EAtom ", "(X2Atom ", 1) if a.startswith("(EAtom ") else None
+
+
 def gen_malformed(rng):
     toks = ["a", "1", "'s'", "(", ")", "+", "-", "--", "NOT", "AND", "OR", "=", "<", ">", "\"q\"", "*", "/", ",", "'", "\"",
             "|", "||", "!", ".", "..", "1.", "x'", "~", "[", "]", "`", "null", "case", "is", "in"]
@@ -258,6 +350,11 @@ CORPUS_E = ["- -1", "1 - - -2", '"null"', '"not" = 1', '"select" + 1', "NOT NOT 
             "-a || b", "~ ~a", "+ +a", "- + - a", "1 + 2 * 3", "(1 + 2) * 3", "a OR b AND NOT c = d", "'it''s' || 'x'",
             '"a""b"', "[x y]", "`sel`", "TRUE and FALSE", "null", "a<=b", "a<>b", "a!=b", "a==b", "1e5", "10.", ".5", "0x1F",
             '"and" or "or"', "- - - a", "a * - - b", "NOT - -a", "((a))", "a - -1", '"Null" = "TRUE"', "(- -1)"]
+CORPUS_E2 = ["a IS NULL", "a IS NOT NULL", "a ISNULL", "a NOTNULL", "a IS b", "a IS NOT 2", "a LIKE 'x%'", "a NOT LIKE b || 'z'",
+             "a GLOB 'p*'", "a BETWEEN 1 AND 2", "a NOT BETWEEN 1 AND 2 AND b", "a BETWEEN 1 + 1 AND 2 * 3 OR c", "a IN (1)",
+             "a NOT IN (1, 2, 'x')", "abs(a)", "max(a, b, 1)", "coalesce(a, abs(-b), 0) + 1", "(a, b) = (1, 2)",
+             "a BETWEEN (b AND c) AND d", "a IN (1, (2, 3))", "NOT a BETWEEN 1 AND 2", "- abs(a) BETWEEN -1 AND -f1(2)",
+             "a IS NULL AND b NOTNULL OR c IN (1, 2) AND d LIKE 'q'", "a = b IS NULL", "length(c) > 1 AND c NOT GLOB '*z'"]
 CORPUS_S = ['SELECT "select" FROM t', 'SELECT "null", "true" FROM t', 'SELECT a AS "from" FROM t', 'SELECT * FROM "where"',
             "SELECT - -a FROM t", "SELECT a FROM t WHERE a BETWEEN 1 AND 2 AND b", 'SELECT a FROM t WHERE a IS "distinct"',
             'SELECT a FROM t ORDER BY "desc"', 'UPDATE t SET "set" = 1', 'INSERT INTO "values" ("into") VALUES (1)',
@@ -363,7 +460,7 @@ def run(ck):
 
     rng = ck.rng
     ne, nm, ns, nx = (260, 80, 220, 120) if quick else (2500, 800, 2500, 1200)
-    exprs = list(CORPUS_E) + [gen_expr(rng, rng.randint(1, 4)) for _ in range(ne)]
+    exprs = list(CORPUS_E) + CORPUS_E2 + [gen_expr(rng, rng.randint(1, 4)) for _ in range(ne)] + [gen_expr2(rng, rng.randint(1, 3)) for _ in range(ne // 2)]
     mal = [gen_malformed(rng) for _ in range(nm)]
     stmts = [(0, s) for s in CORPUS_S] + [(1, s) for s in CORPUS_S[:6]] + [(rng.choice([0, 0, 1]), gen_stmt(rng)) for _ in range(ns)]
     execs = list(CORPUS_X) + FIELD_X + [gen_stmt(rng) if rng.random() < 0.6 else gen_nstmt(rng) for _ in range(nx)]
@@ -488,7 +585,17 @@ def run(ck):
         if r.get("ok") and (tree is None or has_other(tree)):
             continue
         cases.append((e, r))
-    lines = ["From Common Require Import Base.", "From SqlFmt Require Import PrecClimb Model.", "Open Scope N_scope.",
+    cases2 = []
+    structured = set(exprs)        # the token pass of the second model places keywords by look-ahead only: it is compared on
+    for e, r in zip(allE, RE):     # grammar-generated expressions, not on the malformed token soup
+        if e not in structured or not r.get("lexok") or not r.get("ok") or any(ord(c) > 127 for c in e) or not r.get("lexok2"):
+            continue
+        if any(k in (4, 5) for k, _, _ in r["toks"]) or r.get("xtree") is None:
+            continue
+        t2 = xtree_to_coq(r["xtree"])
+        if t2 is not None:
+            cases2.append((e, r, t2))
+    lines = ["From Common Require Import Base.", "From SqlFmt Require Import PrecClimb Model Model2.", "Open Scope N_scope.",
              "Definition gen_tbl : list (level sym) := %s." % coq_tbl(tiers),
              "Definition gen_kws : list str := [%s]." % "; ".join(cstr(w) for w in quoted),
              "Definition used_kws : list str := [%s]." % "; ".join(cstr(w) for w in used),
@@ -501,6 +608,8 @@ def run(ck):
         else:
             rows.append("(%s, %s, None)" % (vf.vstr(e), toks_to_coq(r["toks"])))
     lines.append(";\n".join(rows))
+    lines.append("].\nDefinition cases2 : list (list stok * sexpr2 * list stok) := [")
+    lines.append(";\n".join("(%s, %s, %s)" % (toks_to_coq(r["toks"]), t2, toks_to_coq(r["toks2"] or [])) for e, r, t2 in cases2))
     lines.append("""].
 Fixpoint idx {A} (f : nat -> A -> list nat) (i : nat) (l : list A) : list nat :=
   match l with [] => [] | x :: r => f i x ++ idx f (S i) r end.
@@ -521,6 +630,12 @@ Definition printbad (i : nat) (c : str * list stok * option (sexpr * str * list 
   | Some (b, txt, ts2) => one (str_eqb (render true gen_kws b) txt && toks_eqb (sprint gen_kws b) ts2) i
   | None => []
   end.
+(* second model type: fuse + extended tiers + dec on the real tokens = real tree; print2 = real tokens of the real text *)
+Definition parse2bad (i : nat) (c : list stok * sexpr2 * list stok) : list nat :=
+  match parse2 (fst (fst c)) with Some a => one (sexpr2_eqb a (snd (fst c))) i | None => [i] end.
+Definition print2bad (i : nat) (c : list stok * sexpr2 * list stok) : list nat :=
+  one (toks_eqb (print2 gen_kws (snd (fst c))) (snd c) &&
+       match parse2 (print2 gen_kws (snd (fst c))) with Some a => sexpr2_eqb a (snd (fst c)) | None => false end) i.
 (* inside the model: the printed text lexes to the printed tokens, and they parse back to the tree *)
 Definition modelbad (i : nat) (c : str * list stok * option (sexpr * str * list stok)) : list nat :=
   match snd c with
@@ -539,7 +654,8 @@ Definition modelbad (i : nat) (c : str * list stok * option (sexpr * str * list 
                "same": "one (tbl_eqb gen_tbl sql_tbl) 1%nat ++ one (toks_eqb (List.map (fun w => (1, w, false)) gen_kws) "
                        "(List.map (fun w => (1, w, false)) kws_pinned)) 2%nat",
                "lexbad": "idx lexbad 0 cases", "parsebad": "idx parsebad 0 cases",
-               "printbad": "idx printbad 0 cases", "modelbad": "idx modelbad 0 cases"}
+               "printbad": "idx printbad 0 cases", "modelbad": "idx modelbad 0 cases",
+               "parse2bad": "idx parse2bad 0 cases2", "print2bad": "idx print2bad 0 cases2"}
     okc, out = vf.coq_eval(GROUP, ck.work, "cases", "\n".join(lines), exprs_q)
     ck.add_obligations(3, 0)
     if not okc:
@@ -562,3 +678,9 @@ Definition modelbad (i : nat) (c : str * list stok * option (sexpr * str * list 
             e, r = cases[i]
             ck.violation("corr-" + key, "model and implementation disagree (%s) on %r: real accepted=%s formatted=%r" % (
                 what, e, r.get("ok"), hx(r.get("fmt"))), replay={"exprs": [e]}, found_input=found)
+    ck.cov["input_distribution"]["second_model_cases"] = len(cases2)
+    for key, what in (("parse2bad", "extended expression parser (IS/LIKE/BETWEEN/IN/calls)"), ("print2bad", "extended printer")):
+        for i in out[key][:3]:
+            e, r, _ = cases2[i]
+            ck.violation("corr-" + key, "second model and implementation disagree (%s) on %r: real formatted=%r" % (
+                what, e, hx(r.get("fmt"))), replay={"exprs": [e]}, found_input=found)
